@@ -9,6 +9,14 @@ TB = ("trusted base: rustc's MIR construction and Instance resolution for the re
       "mir-opt-level 0, overflow checks on), the fact extractor /verif/driver, std/rpds/arcstr behaving as documented")
 
 CLAIMS = {
+ 'C07': dict(
+   technique="registry/closure-constant table agreement + provenance of the emit updates (custom MIR extractor, Python rules)",
+   text=("Thin, static: the pack->concatenate->parse round trip is value-level and not decided. Decided: all 60 (u|i|f)(8..64)(le|be)?(!)? words "
+         "pass the width and Byteorder constant their name states to the reader/packer of their class, the name set is closed, the current-order "
+         "wrappers and the generic int/uint/float(!) words forward width and current order; in emit the length added to output-length is len() of "
+         "the very bit-string appended to output, the length update dominates the append and nothing else fallible sits between. Necessary "
+         "conditions of the round trip only."),
+   ref='§3 C07'),
  'C18': dict(
    technique="MIR sibling-agreement check with inter-procedural constant substitution + who-may-call + failure-path analysis (custom extractor, Python rules)",
    text=("Thin, static: the round trip of the data belongs to the base32/base64/z85 crates (trusted). Decided: each word pair X / X> reaches "
